@@ -345,7 +345,9 @@ def cmdC01 (st : State) : Except String (List String) := do
       | [(a, _)] => ids := ids.push a
       | cands => out := out ++ [s!"FAIL marker glyph {ga.marker}: attribute {j} (marker value {want}) found {cands.length} times"]; ids := ids.push 100000
   | none => pure ()
-  let gmap : Nat → Nat := fun a => ids.getD a 100000
+  -- (attribute 1000 of the IR is breakweight, as in C05: `glyph.breakweight` in a rule reads the glyph attribute the Silf
+  -- header names for it)
+  let gmap : Nat → Nat := fun a => if a == 1000 then silf.attrBreakWeight else ids.getD a 100000
   let mut nRules := 0
   let mut nSets := 0
   let mut nCons := 0
